@@ -94,3 +94,14 @@ chk("C07", "exhaustive small-scope enumeration plus generated update/lookup scri
     "(get_index_unique labels resolve to their own row and are what show() prints). Oracle: linear scan of the model's current names.",
     "trusted: CPython 3.12, numpy, Hypothesis; the harness' linear-scan reference. Exhaustive only for the stated small scope; scripts "
     "are bounded search (<= 8 rows, <= 25 steps).", "DESIGN.md 4/C07", engine="hypothesis + enumeration")
+
+chk("C08", "exhaustive small-scope selector enumeration under per-worker hash seeds, plus generated tables and selector pairs, against a naive reference selector",
+    "All 364 index columns over a 3-name alphabet up to length 5 x every selector form (positions, lists, masks, name lists, regexes in "
+    "either case with positive / negative / out-of-range counts and shifts, closed / open / count-and-shift-addressed name spans, spans "
+    "over another column, closed and one- or two-sided-open value ranges on float and int columns, None, slices, empty) through rows[], "
+    "rows.indices[] and rows.mask[]; the regex family runs in every worker, each under its own PYTHONHASHSEED (8 quick / 16 thorough). "
+    "Generated larger tables (<= 40 rows) and selector pairs check rows[s1,s2] == rows[s1].rows[s2] == reference composition. Results are "
+    "read through a hidden position column, so order and multiplicity are compared.",
+    "trusted: CPython 3.12, numpy, Hypothesis; the harness' reference selector (linear scans, re.fullmatch). Names avoid separators, regex "
+    "metacharacters and case-only duplicates; shifts leaving the table are excluded and counted.", "DESIGN.md 4/C08",
+    engine="hypothesis + enumeration + subprocess-differential")
